@@ -11,13 +11,20 @@ def main(argv=None):
                     choices=["quick", "thorough"])
     ap.add_argument("--replay", default=None)
     ap.add_argument("--engine", default=None)
+    ap.add_argument("--prop", default=None)
+    ap.add_argument("--n", type=int, default=10)
+    ap.add_argument("--only", default=None)
     args = ap.parse_args(argv)
     from dsim import kernel, engines
     if args.replay:
         return kernel.replay_file(args.replay)
     if args.property == "selftest":
         from dsim import selftest
-        return selftest.main(args.tier)
+        return selftest.main(args.tier, args.only.split(",") if args.only else None)
+    if args.property == "selftest-worker":
+        from dsim import selftest
+        selftest.worker(args.prop, args.engine, args.n)
+        return 0
     prop = args.property
     if prop not in engines.PROPERTY_ENGINE:
         print(f"property {prop} is not claimed (see MANIFEST.json not_applicable)")
